@@ -2,7 +2,7 @@
 """tools/seed_save.py <ID> <name> '<needs>' '<ran>' '<caught_by>' : store a confirmed seeded change under /verif/seeded/<ID>-<name>/"""
 import json, os, shutil, sys
 pid, name, needs, ran, caught = sys.argv[1:6]
-src = f"/tmp/seed_{pid}/_seed"
+src = os.environ.get("SEEDP", "/tmp/seed_") + pid + "/_seed"
 dst = f"/verif/seeded/{pid}" if name == "-" else f"/verif/seeded/{pid}-{name}"
 os.makedirs(dst, exist_ok=True)
 shutil.copy(f"{src}/patch.diff", f"{dst}/patch.diff")
